@@ -30,8 +30,10 @@ inline void gen_input(pbt::Source& src, Input& in, size_t max_n, size_t keybytes
     static const unsigned char ALPHAS[4][4] = {{'a', 'a', 'a', 'a'}, {'a', 'b', 'a', 'b'}, {'a', 'b', 0xFF, 0x01}, {0x80, 'a', 0xFF, 0x7F}};
     const unsigned char* alpha = ALPHAS[src.range(0, 3)];
     size_t asz = (size_t)src.range(1, 4);
-    size_t plen = (size_t)src.weighted({3, 2, 2, 1}); // shared prefix class
-    plen = plen == 0 ? 0 : plen == 1 ? (size_t)src.range(1, 7) : plen == 2 ? (size_t)src.range(8, 20) : (size_t)src.range(21, 40);
+    // shared prefix class; the last one (250..600 bytes) crosses every 8-bit quantity in the LCP bookkeeping
+    size_t plen = (size_t)src.weighted({6, 4, 4, 2, 1});
+    plen = plen == 0 ? 0 : plen == 1 ? (size_t)src.range(1, 7) : plen == 2 ? (size_t)src.range(8, 20) : plen == 3 ? (size_t)src.range(21, 40) : (size_t)src.range(250, 600);
+    if (plen >= 250) pbt::label("prefix>=250");
     std::string prefix;
     for (size_t i = 0; i < plen; ++i) prefix += (char)alpha[src.index(asz)];
     in.strs.clear();
